@@ -1,4 +1,4 @@
-import SaModel.Props.C01
+import SaModel.Props.C01Obs
 import SaModel.Props.C10Front
 /-
 C10 — ArrayBuilder: each build returns exactly the rows pushed since the last one.
@@ -9,7 +9,10 @@ A history is any sequence of `push r` / `extend rs` / `viaSerializer rs` / `buil
   `next/seen`, union `current_offset`, dictionary index — equality of model states).  No invariant needed.
 * `batches`: at build k the root holds exactly the rows added since build k-1 (R1: one row per record, all
   columns at that length; with R2: the rows are `interpRow` of those records), and it continues from the fresh
-  builder.  By induction over the history, from R1 (`Props/C01.push_appends`) and `take_is_fresh`.
+  builder.  By induction over the history (`batches_gen`, generic in the state invariant), from R1 for determined states
+  under the WEAK state invariant (`Build.push_appends_det`, the hidden-rows refinement of Props/C01Obs.lean: NO `Safe`
+  hypothesis) and `take_is_fresh`.  `batches_strict`: for `Safe` schemas the states are moreover strictly well formed (`WFB`;
+  false without `Safe`).
 The statements about the ARRAYS each build returns (`C10_histories`, `C10_chunking_irrelevant`, `C10_build_is_fresh`) are in
 Props/C10Arrays.lean: every build is physically the one-shot `toMarrow` of its batch, hence decodes by `C01_build_decode`.
 -/
@@ -231,44 +234,45 @@ theorem take_fresh_root (fields : List Field) (r0 : B) (h0 : newRoot fields = .o
 
 /-! ### batches -/
 
-/-- what a build sees, relative to the rows of its batch; `Q x lv`: "lv is the row record x denotes" -/
-structure Holds (r0 : B) (Q : SVal → LVal → Prop) (root : B) (rows : List SVal) : Prop where
-  wf : WFB root
-  safe : Safe root
+/-- what a build sees, relative to the rows of its batch; `I`: the state invariant carried through the history,
+`Q x lv`: "lv is the row record x denotes" -/
+structure Holds (I : B → Prop) (r0 : B) (Q : SVal → LVal → Prop) (root : B) (rows : List SVal) : Prop where
+  inv : I root
   take : takeRest root = r0
   rows : All2 (fun lv x => Q x lv) (dec root) rows
 
+/-- all records of a history satisfy `okx` -/
+def OpsOK (okx : SVal → Prop) (ops : List Op) : Prop := ∀ op ∈ ops, ∀ x ∈ op.rows, okx x
+
 section
-variable (ext : Ext) (r0 : B) (Q : SVal → LVal → Prop) (okx : SVal → Prop)
-variable (hstep : ∀ (b b' : B) (x : SVal), WFB b → Safe b → takeRest b = r0 → okx x → push ext b x = .ok b' →
-  ∃ lv, dec b' = dec b ++ [lv] ∧ Q x lv)
+variable (ext : Ext) (I : B → Prop) (r0 : B) (Q : SVal → LVal → Prop) (okx : SVal → Prop)
+variable (hstep : ∀ (b b' : B) (x : SVal), I b → takeRest b = r0 → okx x → push ext b x = .ok b' →
+  I b' ∧ ∃ lv, dec b' = dec b ++ [lv] ∧ Q x lv)
 include hstep
 
-theorem holds_push {root r : B} {pending : List SVal} {x : SVal} (hh : Holds r0 Q root pending)
-    (hraw : okx x) (h : push ext root x = .ok r) : Holds r0 Q r (pending ++ [x]) := by
-  obtain ⟨lv, hd, hq⟩ := hstep root r x hh.wf hh.safe hh.take hraw h
-  obtain ⟨hw, hs, _⟩ := C01.push_appends ext x root r hh.wf hh.safe h
-  exact ⟨hw, hs, by rw [push_takeRest ext x root r h, hh.take], by
+theorem holds_push {root r : B} {pending : List SVal} {x : SVal} (hh : Holds I r0 Q root pending)
+    (hraw : okx x) (h : push ext root x = .ok r) : Holds I r0 Q r (pending ++ [x]) := by
+  obtain ⟨hi, lv, hd, hq⟩ := hstep root r x hh.inv hh.take hraw h
+  exact ⟨hi, by rw [push_takeRest ext x root r h, hh.take], by
     rw [hd]; exact All2.append hh.rows (All2.cons hq All2.nil)⟩
 
-theorem holds_fold : ∀ (rows : List SVal) {root r : B} {pending : List SVal}, Holds r0 Q root pending →
-    (∀ x ∈ rows, okx x) → rows.foldlM (push ext) root = .ok r → Holds r0 Q r (pending ++ rows)
+theorem holds_fold : ∀ (rows : List SVal) {root r : B} {pending : List SVal}, Holds I r0 Q root pending →
+    (∀ x ∈ rows, okx x) → rows.foldlM (push ext) root = .ok r → Holds I r0 Q r (pending ++ rows)
   | [], root, r, pending, hh, _, h => by
     simp [List.foldlM, pure, Except.pure] at h; subst h; simpa using hh
   | x :: rest, root, r, pending, hh, hraw, h => by
     simp only [List.foldlM] at h
     obtain ⟨b1, h1, h⟩ := (bind_ok _ _ _).1 h
-    have := holds_fold rest (holds_push ext r0 Q okx hstep hh (hraw x (by simp)) h1) (fun y hy => hraw y (by simp [hy])) h
+    have := holds_fold rest (holds_push ext I r0 Q okx hstep hh (hraw x (by simp)) h1) (fun y hy => hraw y (by simp [hy])) h
     simpa using this
 
-omit hstep in
-/-- all records of a history satisfy `okx` -/
-def OpsOK (okx : SVal → Prop) (ops : List Op) : Prop := ∀ op ∈ ops, ∀ x ∈ op.rows, okx x
-
-theorem batches_gen (fields : List Field) (h0 : newRoot fields = .ok r0) (hsafe : Safe r0) :
+/-- the generic induction over a history: an invariant `I` of the fresh builder that every accepted push keeps (together
+with "the push appends one row `lv` with `Q x lv`") holds of every state a build sees, whose rows are related by `Q` to
+the rows of its batch; every build continues from the fresh builder -/
+theorem batches_gen (fields : List Field) (h0 : newRoot fields = .ok r0) (hI0 : I r0) :
     ∀ (ops : List Op) (root : B) (pending : List SVal) (outs : List (B × List Arr)) (fin : B),
-      Holds r0 Q root pending → OpsOK okx ops → run ext root ops = .ok (outs, fin) →
-      All2 (fun (out : B × List Arr) rows => Holds r0 Q out.1 rows ∧ buildArrays ext out.1 = .ok (out.2, r0))
+      Holds I r0 Q root pending → OpsOK okx ops → run ext root ops = .ok (outs, fin) →
+      All2 (fun (out : B × List Arr) rows => Holds I r0 Q out.1 rows ∧ buildArrays ext out.1 = .ok (out.2, r0))
         outs (batchesFrom pending ops)
   | [], root, pending, outs, fin, _, _, h => by
     simp [run] at h; obtain ⟨rfl, rfl⟩ := h
@@ -277,7 +281,7 @@ theorem batches_gen (fields : List Field) (h0 : newRoot fields = .ok r0) (hsafe 
     simp only [run] at h
     obtain ⟨r, h1, h⟩ := (bind_ok _ _ _).1 h
     have hx : okx x := hraw (.push x) (by simp) x (by simp [Op.rows])
-    exact batches_gen fields h0 hsafe ops r _ outs fin (holds_push ext r0 Q okx hstep hh hx h1)
+    exact batches_gen fields h0 hI0 ops r _ outs fin (holds_push ext I r0 Q okx hstep hh hx h1)
       (fun op hop => hraw op (by simp [hop])) h
   | .extend x :: ops, root, pending, outs, fin, hh, hraw, h => by
     simp only [run] at h
@@ -290,9 +294,9 @@ theorem batches_gen (fields : List Field) (h0 : newRoot fields = .ok r0) (hsafe 
     have hx : ∀ y ∈ rows, okx y := by
       intro y hy
       exact hraw (.extend x) (by simp) y (by simp [Op.rows, hrows, hy])
-    have := holds_fold ext r0 Q okx hstep rows hh hx hf
+    have := holds_fold ext I r0 Q okx hstep rows hh hx hf
     simp only [batchesFrom, hrows, Option.getD_some]
-    exact batches_gen fields h0 hsafe ops r _ outs fin this (fun op hop => hraw op (by simp [hop])) h'
+    exact batches_gen fields h0 hI0 ops r _ outs fin this (fun op hop => hraw op (by simp [hop])) h'
   | .viaSerializer x :: ops, root, pending, outs, fin, hh, hraw, h => by
     simp only [run] at h
     obtain ⟨r, h1, h'⟩ := (bind_ok _ _ _).1 h
@@ -300,9 +304,9 @@ theorem batches_gen (fields : List Field) (h0 : newRoot fields = .ok r0) (hsafe 
     have hx : ∀ y ∈ rows, okx y := by
       intro y hy
       exact hraw (.viaSerializer x) (by simp) y (by simp [Op.rows, hrows, hy])
-    have := holds_fold ext r0 Q okx hstep rows hh hx hf
+    have := holds_fold ext I r0 Q okx hstep rows hh hx hf
     simp only [batchesFrom, hrows, Option.getD_some]
-    exact batches_gen fields h0 hsafe ops r _ outs fin this (fun op hop => hraw op (by simp [hop])) h'
+    exact batches_gen fields h0 hI0 ops r _ outs fin this (fun op hop => hraw op (by simp [hop])) h'
   | .build :: ops, root, pending, outs, fin, hh, hraw, h => by
     simp only [run] at h
     obtain ⟨⟨arrs, rest⟩, h1, h⟩ := (bind_ok _ _ _).1 h
@@ -312,65 +316,92 @@ theorem batches_gen (fields : List Field) (h0 : newRoot fields = .ok r0) (hsafe 
     subst hr
     have hfresh := newRoot_fresh h0
     have hrest : takeRest root = r0 := hh.take
-    have hh' : Holds r0 Q (takeRest root) [] := by
+    have hh' : Holds I r0 Q (takeRest root) [] := by
       rw [hrest]
-      exact ⟨hfresh.1, hsafe, hfresh.2.2, by rw [hfresh.2.1]; exact All2.nil⟩
+      exact ⟨hI0, hfresh.2.2, by rw [hfresh.2.1]; exact All2.nil⟩
     simp only [batchesFrom]
     refine All2.cons ⟨hh, by rw [← hrest]; exact h1⟩ ?_
-    exact batches_gen fields h0 hsafe ops (takeRest root) [] outs' fin' hh' (fun op hop => hraw op (by simp [hop])) h2
+    exact batches_gen fields h0 hI0 ops (takeRest root) [] outs' fin' hh' (fun op hop => hraw op (by simp [hop])) h2
 end
 
-/-- **batches (R1 level).** In any history — records of ANY shape, raw key/value call streams included (a Map builder
-refuses the non-alternating ones since repo fix eafdf15; the former hypothesis `rawOK` is gone) — build k sees a
-well-formed root holding exactly as many rows as were added since build k-1 (each column at that length,
-`C01.runRows_rows`), returns `finishFields` of that state, and the builder continues from the fresh builder of the
-schema. -/
-theorem batches (ext : Ext) (fields : List Field) (r0 : B) (h0 : newRoot fields = .ok r0) (hsafe : Safe r0)
+/-- the state invariant of the history theorems: the WEAK state invariant of the hidden-rows refinement (`WFH`: the
+invariant `WFB` with the dictionary-key clause weakened to what the builders maintain), `NoDictKey` (holds of every builder
+`build_builder` constructs) and `Det` (no row of the ROOT is undetermined: the root is a non-nullable struct all of whose
+rows were pushed).  No `Safe`. -/
+def HistInv (b : B) : Prop := WFH b ∧ NoDictKey b ∧ Det b
+
+theorem histInv_fresh {fields : List Field} {r0 : B} (h0 : newRoot fields = .ok r0) : HistInv r0 :=
+  ⟨WFH_of_WFB _ (newRoot_fresh h0).1, Build.newRoot_NoDictKey h0, Det_of_WFB (newRoot_fresh h0).1⟩
+
+/-- **batches (R1 level).** In any history over ANY schema `build_builder` accepts — records of ANY shape, raw key/value
+call streams included (a Map builder refuses the non-alternating ones since repo fix eafdf15; the former hypothesis `rawOK`
+is gone), NO `Safe` hypothesis (dictionaries with non-nullable keys below nullable structs / fixed-size lists included) —
+build k sees a root that satisfies the weak state invariant, is determined, and holds exactly as many rows as were added
+since build k-1 (each column at that length, `C01.runRows_rows'`); it returns `finishFields` of that state, and the builder
+continues from the fresh builder of the schema.  (For `Safe` schemas the states are moreover strictly well formed:
+`batches_strict`.) -/
+theorem batches (ext : Ext) (fields : List Field) (r0 : B) (h0 : newRoot fields = .ok r0)
     (ops : List Op) (outs : List (B × List Arr)) (fin : B)
     (h : run ext r0 ops = .ok (outs, fin)) :
     All2 (fun (out : B × List Arr) rows =>
-        WFB out.1 ∧ (dec out.1).length = rows.length ∧ buildArrays ext out.1 = .ok (out.2, r0))
+        WFH out.1 ∧ Det out.1 ∧ (dec out.1).length = rows.length ∧ buildArrays ext out.1 = .ok (out.2, r0))
       outs (batchesFrom [] ops) := by
   have hfresh := newRoot_fresh h0
-  have := batches_gen ext r0 (fun _ _ => True) (fun _ => True) (by
-    intro b b' x hw hs _ _ hp
-    obtain ⟨_, _, lv, hd⟩ := C01.push_appends ext x b b' hw hs hp
-    exact ⟨lv, hd, trivial⟩) fields h0 hsafe ops r0 [] outs fin
-    ⟨hfresh.1, hsafe, hfresh.2.2, by rw [hfresh.2.1]; exact All2.nil⟩ (fun _ _ _ _ => trivial) h
+  have := batches_gen ext HistInv r0 (fun _ _ => True) (fun _ => True) (by
+    intro b b' x ⟨hw, hn, hdt⟩ _ _ hp
+    obtain ⟨hw', hn', hd', lv, hd, _⟩ := Build.push_appends_det ext x b b' hw hn hdt hp
+    exact ⟨⟨hw', hn', hd'⟩, lv, hd, trivial⟩) fields h0 (histInv_fresh h0) ops r0 [] outs fin
+    ⟨histInv_fresh h0, hfresh.2.2, by rw [hfresh.2.1]; exact All2.nil⟩ (fun _ _ _ _ => trivial) h
   refine All2.imp ?_ this
   intro out rows ⟨hh, hb⟩
-  exact ⟨hh.wf, All2.length hh.rows, hb⟩
+  exact ⟨hh.inv.1, hh.inv.2.2, All2.length hh.rows, hb⟩
 
 /-- **batches (content).** For covered schemas and records whose raw call streams alternate (`hraw`; `hnar`: the
-sentinel bound of `C01.push_interp`, needed only when some record contains a raw stream): build k sees a root whose
-rows are exactly `interpRow` of the records added since build k-1, in order (a 0-row build sees no rows), and
-returns `finishFields` of that state; the builder continues from the fresh builder. -/
+sentinel bound of `C01.push_interp'`, needed only when some record contains a raw stream) — NO `Safe` hypothesis: build k
+sees a determined root whose rows are exactly `interpRow` of the records added since build k-1, in order (a 0-row build
+sees no rows), and returns `finishFields` of that state; the builder continues from the fresh builder. -/
 theorem batches_interp (ext : Ext) (fields : List Field) (r0 : B) (hc : fields.all coveredF = true)
-    (h0 : newRoot fields = .ok r0) (hsafe : Safe r0)
+    (h0 : newRoot fields = .ok r0)
     (ops : List Op) (hraw : OpsOK (fun x => structStreamsAlternate x = true) ops)
     (hnar : OpsOK (fun x => noRaw x = true) ops ∨ narrowRoot fields = true)
     (outs : List (B × List Arr)) (fin : B)
     (h : run ext r0 ops = .ok (outs, fin)) :
     All2 (fun (out : B × List Arr) rows =>
-        WFB out.1 ∧ All2 (fun lv x => interpRow ext fields x = .ok lv) (dec out.1) rows ∧
+        WFH out.1 ∧ Det out.1 ∧ All2 (fun lv x => interpRow ext fields x = .ok lv) (dec out.1) rows ∧
         buildArrays ext out.1 = .ok (out.2, r0))
       outs (batchesFrom [] ops) := by
   have hfresh := newRoot_fresh h0
   have hshape := newRoot_shape hc h0
   have hcomb : OpsOK (fun x => structStreamsAlternate x = true ∧ (noRaw x = true ∨ narrowRoot fields = true)) ops :=
     fun op ho x hx => ⟨hraw op ho x hx, hnar.imp (fun h => h op ho x hx) id⟩
-  have := batches_gen ext r0 (fun x lv => interpRow ext fields x = .ok lv)
+  have := batches_gen ext HistInv r0 (fun x lv => interpRow ext fields x = .ok lv)
     (fun x => structStreamsAlternate x = true ∧ (noRaw x = true ∨ narrowRoot fields = true))
     (by
-    intro b b' x hw hs ht hraw hp
+    intro b b' x ⟨hw, hn, hdt⟩ ht hraw hp
     have hsh : Shape b (.struct (Fields.ofList fields)) false [] :=
       Shape.of_takeRest (ht.trans hfresh.2.2.symm) hshape
-    obtain ⟨_, _, _, lv, hd, hi⟩ := C01.push_interp ext x b b' _ _ _ hraw.1 hraw.2 hw hs hsh hp
-    exact ⟨lv, hd, hi⟩) fields h0 hsafe ops r0 [] outs fin
-    ⟨hfresh.1, hsafe, hfresh.2.2, by rw [hfresh.2.1]; exact All2.nil⟩ hcomb h
+    obtain ⟨hw', hn', hd', _, lv, hd, hi⟩ := C01.push_interp_det ext x b b' _ _ _ hraw.1 hraw.2 hw hn hdt hsh hp
+    exact ⟨⟨hw', hn', hd'⟩, lv, hd, hi⟩) fields h0 (histInv_fresh h0) ops r0 [] outs fin
+    ⟨histInv_fresh h0, hfresh.2.2, by rw [hfresh.2.1]; exact All2.nil⟩ hcomb h
   refine All2.imp ?_ this
   intro out rows ⟨hh, hb⟩
-  exact ⟨hh.wf, hh.rows, hb⟩
+  exact ⟨hh.inv.1, hh.inv.2.2, hh.rows, hb⟩
+
+/-- **the strict invariant along histories, for `Safe` schemas.**  What still carries `Safe`: the STRICT state invariant
+`WFB` (every dictionary key designates a value) of the states the builds see — it is FALSE without `Safe`
+(`C01.exUnsafeAfter1_not_WFB`: a placeholder key below a null while the dictionary is empty; `C01.dict_placeholder_unstable`),
+which is why `batches` / `batches_interp` speak about `WFH` and `Det`. -/
+theorem batches_strict (ext : Ext) (fields : List Field) (r0 : B) (h0 : newRoot fields = .ok r0) (hsafe : Safe r0)
+    (ops : List Op) (outs : List (B × List Arr)) (fin : B)
+    (h : run ext r0 ops = .ok (outs, fin)) :
+    All2 (fun (out : B × List Arr) (_ : List SVal) => WFB out.1 ∧ Safe out.1) outs (batchesFrom [] ops) := by
+  have hfresh := newRoot_fresh h0
+  have := batches_gen ext (fun b => WFB b ∧ Safe b) r0 (fun _ _ => True) (fun _ => True) (by
+    intro b b' x ⟨hw, hs⟩ _ _ hp
+    obtain ⟨hw', hs', lv, hd⟩ := C01.push_appends ext x b b' hw hs hp
+    exact ⟨⟨hw', hs'⟩, lv, hd, trivial⟩) fields h0 ⟨hfresh.1, hsafe⟩ ops r0 [] outs fin
+    ⟨⟨hfresh.1, hsafe⟩, hfresh.2.2, by rw [hfresh.2.1]; exact All2.nil⟩ (fun _ _ _ _ => trivial) h
+  exact All2.imp (fun out rows ⟨hh, _⟩ => hh.inv) this
 
 /-! ### non-vacuity -/
 
@@ -386,5 +417,53 @@ example : (do
 
 example : batchesFrom [] [Op.push .unit, .build, .extend (.seq (.cons .none (.cons .unit .nil))), .build, .build] =
     [[.unit], [.none, .unit], []] := by decide
+
+/-! ### non-vacuity: a history over a schema OUTSIDE `Safe`
+
+Schema `Props.C01.exUnsafeFields` = `{s: Struct{d: Dictionary(UInt8, Utf8)}?}` (a dictionary with non-nullable keys below
+a nullable struct, `C01.exUnsafe_not_safe`); history: push `s = None`, push `s = {d: "a"}`, build, push `s = None`,
+build — the records of `C01.exUnsafeRows`. -/
+
+/-- the fresh builder of the schema (literal form, cf. `C01.exUnsafe_not_safe`) -/
+def exUnsafeRoot0 : B :=
+  .struct "$" 0 none
+    (.cons (.struct "$.s" 0 (some [])
+        (.cons (.dictionary "$.s.d" (.leaf "$.s.d.key" (.int .u8) none []) (.bytes "$.s.d.value" .utf8 none [0] []) [])
+          ⟨"d", false, []⟩ .nil) [none] 0 [false]) ⟨"s", true, []⟩ .nil) [none] 0 [false]
+
+theorem exUnsafeNew : newRoot C01.exUnsafeFields = .ok exUnsafeRoot0 := by decide
+
+theorem exUnsafeRoot0_not_safe : ¬ Safe exUnsafeRoot0 := C01.exUnsafe_not_safe _ exUnsafeNew
+
+def exUnsafeOps : List Op :=
+  [.push (.record "R" (.cons "s" 0 .none .nil)),
+   .push (.record "R" (.cons "s" 0 (.some (.record "S" (.cons "d" 0 (.str "a") .nil))) .nil)),
+   .build,
+   .push (.record "R" (.cons "s" 0 .none .nil)),
+   .build]
+
+/-- the batches of the history are the records of `C01.exUnsafeRows`: the first two, then the third -/
+example : batchesFrom [] exUnsafeOps = [C01.exUnsafeRows.take 2, C01.exUnsafeRows.drop 2] := by decide
+
+theorem exUnsafeRunOk : (run {} exUnsafeRoot0 exUnsafeOps).isOk = true := by decide +kernel
+
+/-- `batches_interp` applies to the history with every hypothesis discharged (the schema is outside `Safe`:
+`exUnsafeRoot0_not_safe`) -/
+example : ∀ outs fin, run {} exUnsafeRoot0 exUnsafeOps = .ok (outs, fin) →
+    All2 (fun (out : B × List Arr) rows =>
+        WFH out.1 ∧ Det out.1 ∧ All2 (fun lv x => interpRow {} C01.exUnsafeFields x = .ok lv) (dec out.1) rows ∧
+        buildArrays {} out.1 = .ok (out.2, exUnsafeRoot0))
+      outs (batchesFrom [] exUnsafeOps) := by
+  intro outs fin h
+  refine batches_interp {} C01.exUnsafeFields exUnsafeRoot0 (by decide) exUnsafeNew exUnsafeOps ?_ (Or.inl ?_) outs fin h
+  · unfold OpsOK; decide
+  · unfold OpsOK; decide
+
+/-- what the two builds really see: the first the rows null, {d: "a"} (the dictionary child holds the placeholder key
+below the null), the second the single row null -/
+example : (do
+      let (outs, _) ← run {} exUnsafeRoot0 exUnsafeOps
+      pure (outs.map fun o => decRoot o.1) : R (List (List (List LVal)))) =
+    .ok [[[.null, .struct (.cons "d" (.str [97]) .nil)]], [[.null]]] := by decide +kernel
 
 end SaModel.Props.C10
